@@ -729,7 +729,7 @@ pub fn wal_leg(args: &Args) {
     }
     // giants: 1 MiB + 1 and 17 MiB in the quick tier, 70 MiB and 130 MiB in addition in the thorough tier
     let giants: &[usize] = if args.thorough() { &[(1 << 20) + 1, 17 << 20, 70 << 20, 130 << 20] } else { &[(1 << 20) + 1, 17 << 20] };
-    for (i, g) in giants.iter().enumerate() {
+    for (i, g) in giants.iter().enumerate().filter(|_| args.get_u64("giants", 1) == 1) {
         if i % args.shards == args.shard % giants.len().max(1) || args.shards == 1 {
             giant_case(&mut rep, *g);
         }
@@ -971,7 +971,9 @@ fn seg_image(ds: &[ReplicationDelta]) -> Result<Vec<u8>, String> {
 }
 fn wal_image(ds: &[ReplicationDelta]) -> Result<Vec<u8>, String> {
     let store = InMemoryWalStore::new();
-    let mut r = WalRotator::new(store.clone(), 1 << 24).map_err(|e| e.to_string())?;
+    // one file, whatever the batch holds (a 17 MiB update must not make the rotator start a second file that this
+    // single-image round trip would not read)
+    let mut r = WalRotator::new(store.clone(), 1 << 40).map_err(|e| e.to_string())?;
     for d in ds {
         r.append(&WalEntry::from_delta(d, d.value.timestamp.time).map_err(|e| e.to_string())?).map_err(|e| e.to_string())?;
     }
@@ -1201,7 +1203,7 @@ pub fn codec_leg(args: &Args) {
         }
     }
     // giants: spread over the shards; the quick tier stops at 3 MiB
-    for (i, (shape, size)) in GIANTS.iter().enumerate() {
+    for (i, (shape, size)) in GIANTS.iter().enumerate().filter(|_| args.get_u64("giants", 1) == 1) {
         // quick tier: one string just above 1 MiB and one 30k-field hash
         if args.thorough() && i % args.shards != args.shard {
             continue;
